@@ -396,6 +396,10 @@ pub enum NOp {
     /// `from` calls `to` with a handler that never finishes, then closes the connection; the
     /// handler at `to` is cancelled by the close
     SlowRpcThenClose { from: u8, to: u8 },
+    /// `from` has a never-finishing call to `to` in flight through `Network::rpc` and dials `to`
+    /// again: the connection is replaced under the call, which then fails; the replacement must
+    /// stay registered
+    SlowRpcThenRedial { from: u8, to: u8 },
     Wait(u16),
 }
 
@@ -433,6 +437,7 @@ pub fn network_case(case: &NCase, obs: &mut Obs) -> Result<(), Fail> {
         let mut generation = vec![0u32; n];
         let (mut n_crash, mut n_replaced) = (0, 0);
         let mut n_slow_close = 0;
+        let mut n_redial_under_call = 0;
         // checks that hold at every instant: run them after every step without awaiting in between
         fn check_all(nodes: &[Node], subs: &mut Vec<NSub>, generation: &[u32], sub_gen: &[u32], what: &str) -> Result<(), Fail> {
             for (i, node) in nodes.iter().enumerate() {
@@ -534,6 +539,24 @@ pub fn network_case(case: &NCase, obs: &mut Obs) -> Result<(), Fail> {
                         None => vfail!("c04:handler-survived-close", "{what}: node {t}'s handler for a request from node {f} is still running 100 ms after the connection was closed"),
                     }
                 }
+                NOp::SlowRpcThenRedial { from, to } => {
+                    let (f, t) = (*from as usize % n, *to as usize % n);
+                    if f == t || !nodes[f].net.peers().contains(&nodes[t].id()) { continue; }
+                    let id = 80_000 + step as u64;
+                    let ctl = Ctl { id, delay_ms: 0, status_idx: 0, resp_len: 4, resp_hdrs: 0, mode: 1 };
+                    let net = nodes[f].net.clone();
+                    let target = nodes[t].id();
+                    let call = tokio::spawn(async move { net.rpc(target, ctl_request("/slow", &[], &ctl, 30)).await.map(|_| ()).map_err(|e| e.to_string()) });
+                    sleep_ms(50).await;
+                    if nodes[t].rec.find(id, Ev::Start).is_none() { call.abort(); continue; }
+                    let redial = within(15_000, nodes[f].net.connect(nodes[t].addr())).await;
+                    if !matches!(redial, Ok(Ok(_))) { call.abort(); continue; }
+                    // the call on the replaced connection ends (with an error); nothing of that may touch the new one
+                    let _ = within(2_000, call).await;
+                    sleep_ms(300).await;
+                    vensure!(nodes[f].net.peers().contains(&target), "c04:replacement-disturbed", "{what}: node {f} re-dialed node {t} successfully while a call was in flight on the old connection; 300 ms later it no longer lists node {t}");
+                    n_redial_under_call += 1;
+                }
                 NOp::Wait(ms) => sleep_ms(*ms as u64).await,
             }
             check_all(&nodes, &mut subs, &generation, &sub_gen, &what)?;
@@ -553,6 +576,7 @@ pub fn network_case(case: &NCase, obs: &mut Obs) -> Result<(), Fail> {
         obs.evals(case.ops.len() as u64);
         if n_crash > 0 { obs.label("crash-restart"); }
         if n_slow_close > 0 { obs.label("handler-cancelled-by-remote-close"); }
+        if n_redial_under_call > 0 { obs.label("connection-replaced-under-a-call-in-flight"); }
         if n_replaced > 0 { obs.label("replacement-observed(Lost+New)"); }
         if n_crash > 0 || n_replaced > 0 {
             obs.nontrivial(&case);
@@ -566,7 +590,7 @@ impl Part for NetworkHistories {
     type Case = NCase;
     fn name(&self) -> &'static str { "network-histories" }
     fn rule(&self) -> &'static str {
-        "2-5 networks on the fabric (idle timeout 1-8 s, keep-alive on): histories of connect / disconnect / crash-without-close + restart with the same key / pairwise partition / late subscribe / rpc / a never-finishing rpc followed by a close from the caller (the cancelled handler must see its peer already delisted) / wait; after EVERY step and after a quiet tail of 3 idle timeouts, with no await between draining a subscriber and listing: no duplicates, no self entry, snapshot + events == listing for every subscriber of the live incarnation, events alternate per peer; model-free invariants only (which connection survives a crash/restart race is left open by the statement); non-trivial = history with a crash/restart or an observed replacement (Lost+New back to back); distinct by history"
+        "2-5 networks on the fabric (idle timeout 1-8 s, keep-alive on): histories of connect / disconnect / crash-without-close + restart with the same key / pairwise partition / late subscribe / rpc / a never-finishing rpc followed by a close from the caller (the cancelled handler must see its peer already delisted) / a never-finishing rpc followed by a re-dial from the caller (the replacement must stay registered when the call on the old connection fails) / wait; after EVERY step and after a quiet tail of 3 idle timeouts, with no await between draining a subscriber and listing: no duplicates, no self entry, snapshot + events == listing for every subscriber of the live incarnation, events alternate per peer; model-free invariants only (which connection survives a crash/restart race is left open by the statement); non-trivial = history with a crash/restart or an observed replacement (Lost+New back to back); distinct by history"
     }
     fn strategy(&self, _t: Tier) -> BoxedStrategy<NCase> {
         let op = prop_oneof![
@@ -577,6 +601,7 @@ impl Part for NetworkHistories {
             1 => (0u8..5).prop_map(|at| NOp::Subscribe { at }),
             2 => (0u8..5, 0u8..5).prop_map(|(from, to)| NOp::Rpc { from, to }),
             2 => (0u8..5, 0u8..5).prop_map(|(from, to)| NOp::SlowRpcThenClose { from, to }),
+            2 => (0u8..5, 0u8..5).prop_map(|(from, to)| NOp::SlowRpcThenRedial { from, to }),
             3 => prop_oneof![0u16..50, 50u16..3000].prop_map(NOp::Wait),
         ];
         (2u8..6, 1000u16..8000, prop::collection::vec(op, 1..25)).prop_map(|(nodes, idle_ms, ops)| NCase { nodes, idle_ms, ops }).boxed()
